@@ -196,6 +196,16 @@ func (p *planner) next(r *runner) *Step {
 		return &s
 	case 8:
 		s := Step{Op: "unpack"}
+		if g.Chance(8) {
+			// empty ranges whose length does not fit an int (end - start + 1 wraps)
+			switch g.Intn(3) {
+			case 0:
+				return &Step{Op: "unpack", I: zp(math.MaxInt64 - 1023), J: zp(math.MinInt64)}
+			case 1:
+				return &Step{Op: "unpack", I: zp(int64(g.Range(1, 3))), JHuge: true}
+			}
+			return &Step{Op: "unpack", I: zp(n + int64(g.Range(1, 5))), J: zp(n)}
+		}
 		switch g.Pick(30, 25, 45) {
 		case 1:
 			s.I = zp(int64(g.Range(-1, int(n)+2)))
